@@ -268,7 +268,7 @@ def replay(job):
                 if s != ks.grids.becke_scheme.__name__.replace("original_", ""):
                     ks.grids.becke_scheme = W.schemes[s]
             elif name == "build":
-                ks.build()
+                ks.build(ks.mol) if op[1] else ks.build()
             elif name == "init_grids":
                 mn = molname_of(ks.mol)
                 ns = 1 if prev["spin"] == "R" else 2
@@ -353,3 +353,273 @@ def _world(seed):
     if seed not in _W:
         _W[seed] = SessionWorld(seed)
     return _W[seed]
+
+
+# ------------------------------------------------------------------------------------------------ code -> spec
+class FlowRecorder:
+    """Wraps, at run time and without touching /repo, the methods that are the specification's actions; one event per
+    OUTERMOST call on the tracked object, logged at its return (also on the exception path) with the projection of
+    the real objects after the call and which objects were replaced by it."""
+
+    def __init__(self, W):
+        self.W = W
+        self.events = []
+        self.ks = None
+        self.depth = 0
+        self.keep = []
+        self.undo = []
+
+    # -- projection
+    def snap(self):
+        ks = self.ks
+        ni = getattr(ks, "_numint", None)
+        return {"g": ks.grids, "ni": ni, "gen": getattr(ni, "nldfgen", None), "sdmx": getattr(ni, "sdmxgen", None),
+                "built": ks.grids.coords is not None}
+
+    def post(self, before, err):
+        from pyscf import dft
+        ks = self.ks
+        W = self.W
+        molname = lambda m: next((k for k, v in W.mols.items() if v is m), "?")
+        g = ks.grids
+        ni = getattr(ks, "_numint", None)
+        cider = ni is not None and hasattr(ni, "mlxc")
+        now = self.snap()
+        self.keep += [v for v in list(before.values()) + list(now.values()) if not isinstance(v, bool)] + [ks]
+        return {"level": int(g.level), "scheme": g.becke_scheme.__name__.replace("original_", ""),
+                "built": g.coords is not None, "hasidx": getattr(g, "grids_indexer", None) is not None,
+                "gcls": type(g).__name__, "nicls": type(ni).__name__ if cider else "", "timer": bool(cider and hasattr(ni, "timer")),
+                "gsame": now["g"] is before["g"], "nisame": now["ni"] is before["ni"],
+                "genpresent": now["gen"] is not None, "gensame": now["gen"] is before["gen"],
+                "sdmxpresent": now["sdmx"] is not None, "sdmxsame": now["sdmx"] is before["sdmx"],
+                "err": err, "spin": "U" if isinstance(ks, dft.uks.UKS) else "R",
+                "df": bool(getattr(ks, "with_df", None) is not None), "mol": molname(ks.mol), "gmol": molname(g.mol)}
+
+    def emit(self, ev, before, err, **kw):
+        kw.update(ev=ev, post=self.post(before, err))
+        self.events.append(kw)
+
+    def outer(self, ev, fields):
+        """decorator factory: log the outermost call only"""
+        rec = self
+
+        def mk(orig):
+            import functools
+
+            @functools.wraps(orig)
+            def w(self_, *a, **k):
+                tracked = rec.ks is not None and (self_ is rec.ks or self_ is getattr(rec.ks, "_numint", None))
+                if not tracked or rec.depth > 0:
+                    rec.depth += 1
+                    try:
+                        return orig(self_, *a, **k)
+                    finally:
+                        rec.depth -= 1
+                before = rec.snap()
+                rec.depth += 1
+                err = "ok"
+                try:
+                    return orig(self_, *a, **k)
+                except Exception as ex:  # noqa: BLE001
+                    err = type(ex).__name__
+                    raise
+                finally:
+                    rec.depth -= 1
+                    f = fields(self_, a, k, before)
+                    if f is not None:
+                        rec.emit(ev, before, err, **f)
+            return w
+        return mk
+
+    def install(self):
+        import ciderpress.pyscf.numint as cn
+        from ciderpress.pyscf.dft import _CiderKS
+        from pyscf.dft import gen_grid, rks
+        W = self.W
+        molname = lambda m: next((k for k, v in W.mols.items() if v is m), "?")
+
+        def wrap(cls, name, mk):
+            orig = cls.__dict__[name]
+            setattr(cls, name, mk(orig))
+            self.undo.append((cls, name, orig))
+        wrap(_CiderKS, "build", self.outer("Build", lambda s_, a, k, b: {"withmol": bool((a and a[0] is not None) or k.get("mol") is not None)}))
+        wrap(_CiderKS, "reset", self.outer("Reset", lambda s_, a, k, b: {"mol": molname(a[0] if a else k.get("mol"))}))
+        wrap(_CiderKS, "set_mlxc", self.outer("SetMlxc", lambda s_, a, k, b: {"fam": fam_of(a[0] if a else k["mlxc"])}))
+        # initialize_grids is an event only when it actually built the grid
+        wrap(rks.KohnShamDFT, "initialize_grids",
+             self.outer("InitGrids", lambda s_, a, k, b: {} if (not b["built"] and b["g"].coords is not None) else None))
+        for cls in (cn.CiderNumInt, cn._NLDFMixin):
+            wrap(cls, "nr_rks", self.outer("NrCall", lambda s_, a, k, b: {"ns": 1}))
+            wrap(cls, "nr_uks", self.outer("NrCall", lambda s_, a, k, b: {"ns": 2}))
+        rec = self
+        orig_sa = gen_grid.Grids.__setattr__
+
+        def grids_setattr(g, key, val):
+            watched = key in ("atom_grid", "atomic_radii", "radii_adjust", "radi_method", "becke_scheme", "prune", "level")
+            if not (watched and rec.ks is not None and rec.depth == 0 and g is rec.ks.grids and isinstance(rec.ks, _CiderKS)):
+                return orig_sa(g, key, val)
+            before = rec.snap()
+            rec.depth += 1
+            try:
+                orig_sa(g, key, val)
+            finally:
+                rec.depth -= 1
+                rec.emit("SetGridAttr", before, "ok", level=int(g.level), scheme=g.becke_scheme.__name__.replace("original_", ""))
+        gen_grid.Grids.__setattr__ = grids_setattr
+        self.undo.append((gen_grid.Grids, "__setattr__", orig_sa))
+
+    def uninstall(self):
+        for cls, name, orig in reversed(self.undo):
+            setattr(cls, name, orig)
+        self.undo = []
+
+
+def fam_of(mlxc):
+    st = mlxc.settings
+    return {(False, False): "sl", (False, True): "sdmx", (True, False): "nldf", (True, True): "nldfsdmx"}[(bool(st.has_nldf), bool(st.has_sdmx))]
+
+
+FLOWS = {
+    # name: list of steps; kernel = ks.kernel() with max_cycle 2 (build + 3 evaluations)
+    "nldf-rks-gridchange": [("configure", "R", 0, "becke"), ("decorate", "nldf"), ("kernel",), ("grid_attr", "becke_scheme", "stratmann"),
+                            ("kernel",), ("grad",), ("grid_attr", "level", 1), ("kernel",)],
+    "nldfsdmx-scan": [("configure", "R", 0, "stratmann"), ("decorate", "nldfsdmx"), ("kernel",), ("scan", "m2"), ("grad",), ("scan", "m1")],
+    "sdmx-uks-swap": [("configure", "U", 0, "becke"), ("decorate", "sdmx"), ("kernel",), ("set_mlxc", "nldfsdmx"), ("kernel",),
+                      ("set_mlxc", "sl"), ("kernel",), ("grad",)],
+    "sl-df-spin": [("configure", "R", 0, "becke"), ("decorate", "sl"), ("density_fit",), ("kernel",), ("grad",), ("to_other_spin",), ("kernel",),
+                   ("grad",), ("unsupported", "NMR"), ("unsupported", "Hessian")],
+    "nldf-uks-reset": [("configure", "U", 1, "becke"), ("decorate", "nldf"), ("kernel",), ("reset", "m2"), ("kernel",), ("to_other_spin",),
+                       ("kernel",), ("redecorate",), ("grid_attr", "level", 1), ("kernel",)],
+    "nldfsdmx-df-direct": [("configure", "R", 0, "becke"), ("decorate", "nldfsdmx"), ("direct_call",), ("build",), ("init", ), ("direct_call",),
+                           ("density_fit",), ("direct_call",), ("grid_attr", "becke_scheme", "stratmann"), ("init",), ("direct_call",), ("grad",)],
+}
+
+
+def record_flow(job):
+    """Run one real flow with the recorder installed; returns the event list."""
+    W = _world(job["seed"])
+    rec = FlowRecorder(W)
+    steps = FLOWS[job["flow"]]
+    rec.install()
+    fam = None
+    try:
+        ks = None
+        for st in steps:
+            name = st[0]
+            if name == "configure":
+                ks = W.plain(st[1], st[2], st[3], "m1")
+                rec.ks = ks
+                rec.emit("Configure", rec.snap(), "ok", spin=st[1], level=st[2], scheme=st[3])
+            elif name == "decorate":
+                fam = st[1]
+                before = rec.snap()
+                rec.depth += 1
+                try:
+                    ks = W.decorate(ks, fam)
+                finally:
+                    rec.depth -= 1
+                rec.ks = ks
+                ks.max_cycle = 2
+                ks.conv_tol = 1e-3
+                rec.emit("Decorate", before, "ok", fam=fam_of(ks._numint.mlxc))
+            elif name == "redecorate":
+                before = rec.snap()
+                rec.depth += 1
+                err = "ok"
+                try:
+                    W.decorate(ks, fam)
+                except Exception as ex:  # noqa: BLE001
+                    err = type(ex).__name__
+                finally:
+                    rec.depth -= 1
+                rec.emit("Redecorate", before, err)
+            elif name == "set_mlxc":
+                fam = st[1]
+                ks.set_mlxc(W.model(fam), xmix=0.25)
+            elif name == "grid_attr":
+                setattr(ks.grids, st[1], W.schemes[st[2]] if st[1] == "becke_scheme" else st[2])
+            elif name == "kernel":
+                ks.kernel()
+            elif name == "build":
+                ks.build()
+            elif name == "init":
+                ns = 2 if rec.post(rec.snap(), "ok")["spin"] == "U" else 1
+                ks.initialize_grids(ks.mol, W.dm[next(k for k, v in W.mols.items() if v is ks.mol)][ns])
+            elif name == "direct_call":
+                mn = next(k for k, v in W.mols.items() if v is ks.mol)
+                ns = 2 if rec.post(rec.snap(), "ok")["spin"] == "U" else 1
+                if ks.grids.coords is None:
+                    ks.initialize_grids(ks.mol, W.dm[mn][ns])
+                try:
+                    W.evaluate(ks, mn, ns)
+                except AttributeError:
+                    pass
+            elif name == "reset":
+                ks.reset(W.mols[st[1]])
+            elif name == "scan":
+                sc = ks.as_scanner()
+                sc.max_cycle = 2
+                rec.ks = sc
+                sc(W.mols[st[1]])
+                rec.ks = ks
+            elif name == "density_fit":
+                before = rec.snap()
+                ks = ks.density_fit()
+                ks.max_cycle = 2
+                rec.ks = ks
+                rec.emit("DensityFit", before, "ok")
+            elif name == "to_other_spin":
+                before = rec.snap()
+                ks = ks.to_uks() if rec.post(before, "ok")["spin"] == "R" else ks.to_rks()
+                ks.max_cycle = 2
+                rec.ks = ks
+                rec.emit("ToOtherSpin", before, "ok")
+            elif name == "unsupported":
+                before = rec.snap()
+                err = "ok"
+                try:
+                    getattr(ks, st[1])()
+                except Exception as ex:  # noqa: BLE001
+                    err = type(ex).__name__
+                rec.emit("Unsupported", before, err, meth=st[1])
+            elif name == "grad":
+                gm = ks.nuc_grad_method()
+                rec.events.append({"ev": "Grad", "cls": [type(gm).__module__.split(".")[-1], type(gm).__name__]})
+            else:
+                raise MachineryError("unknown flow step %r" % (st,))
+    finally:
+        rec.uninstall()
+    return {"id": job["id"], "flow": job["flow"], "events": rec.events, "viol": [], "ncmp": len(rec.events), "flowrec": True}
+
+
+def validate_flows(ck, recs):
+    """Trace_KSSession must accept every recorded flow; binding self-test: a corrupted event must be rejected."""
+    import copy
+    res = validate_records("Trace_KSSession", "Trace_KSSession.cfg", [{"id": r["id"], "events": r["events"]} for r in recs], nchunks=len(recs), timeout=900)
+    ck.traces += res["accepted"]
+    ck.states += res["states"]
+    ck.transitions += res["generated"]
+    for rid, inv in res["rejected"]:
+        rc = next(x for x in recs if x["id"] == rid)
+        ck.violation("session-trace:%s:%s" % (rc["flow"], inv.split("@")[0] if inv.startswith("stuck") else inv),
+                     {"flow": rc["flow"], "clause": inv, "events": [e["ev"] for e in rc["events"]]}, replay={"flow": rc["flow"]})
+    ck.extra["session_flows_validated"] = {r["flow"]: len(r["events"]) for r in recs}
+    # self-test: (a) claim a generator was kept where the specification re-creates it, (b) drop the Build events
+    cand = None
+    for r in recs:
+        for k in range(1, len(r["events"])):
+            e, pe = r["events"][k], r["events"][k - 1]
+            if e["ev"] == "NrCall" and e["post"]["err"] == "ok" and e["post"]["genpresent"] and not e["post"]["gensame"] \
+                    and "post" in pe and pe["post"]["genpresent"] and e["post"]["nisame"]:
+                cand = (r, k)
+    if cand is None:
+        raise MachineryError("self-test: no recorded flow re-creates an existing NLDF generator")
+    r, k = cand
+    bad = {"id": "selftest-a", "events": copy.deepcopy(r["events"])}
+    bad["events"][k]["post"]["gensame"] = True
+    bad2 = {"id": "selftest-b", "events": [e for e in copy.deepcopy(r["events"]) if e["ev"] != "Build"]}
+    st = validate_records("Trace_KSSession", "Trace_KSSession.cfg", [bad, bad2], nchunks=2, timeout=600)
+    rej = dict(st["rejected"])
+    if "selftest-a" not in rej or "selftest-b" not in rej:
+        raise MachineryError("self-test: corrupted KS-session trace accepted (%s)" % (st["rejected"],))
+    ck.extra["session_trace_selftest"] = "a flow claiming a kept generator after a grid rebuild, and the same flow without its Build events, are rejected: %s" % (sorted(rej.items()),)
